@@ -252,15 +252,14 @@ func (w *Writer) receive(pck *Packet, reader *Reader) bool {
 	receives[index] = pck
 
 	if head == 0 {
-		if slices.Contains(receives, nil) {
-			return true
+		for len(w.receives) > 0 && !slices.Contains(w.receives[0], nil) {
+			pck := Join(w.receives[0]...)
+
+			w.receives = w.receives[1:]
+
+			w.inbounds.Handle(pck)
+			w.in <- pck
 		}
-
-		w.receives = w.receives[1:]
-
-		pck := Join(receives...)
-		w.inbounds.Handle(pck)
-		w.in <- pck
 	}
 
 	return true
